@@ -39,6 +39,7 @@ vars == <<prog, nst, downs, rc, cbs, dlog, elog, flushes, calls, failed, nfail>>
 
 I(n) == <<"i", n>>
 T(s) == <<"t", s>>
+Lst(s) == <<"l", s>>          \* a Python list (what the Batch collection of streamz/batch.py passes along)
 IsInt(v) == v[1] = "i"
 Num(v) == v[2]
 Items(v) == v[2]
@@ -58,6 +59,9 @@ Nodes == 1 .. Len(prog)
 (* The interpreted catalogue of user functions (harness/userfuncs.py has   *)
 (* the same table in Python).                                              *)
 
+RECURSIVE SumItems(_)
+SumItems(s) == IF s = <<>> THEN 0 ELSE Num(Head(s)) + SumItems(Tail(s))
+
 ApplyF(f, x) ==
     CASE f = "inc"  -> I(Num(x) + 1)
       [] f = "dbl"  -> I(2 * Num(x))
@@ -67,11 +71,19 @@ ApplyF(f, x) ==
       [] f = "wrap" -> T(<<x>>)
       [] f = "rep"  -> T([i \in 1 .. Num(x) |-> I(i)])      \* range(1, x+1): 0 |-> ()
       [] f = "fst"  -> Items(x)[1]
+      \* streamz/batch.py: Batch.map / Batch.filter / Batch.pluck are stream-level maps (collection.py map_partitions) whose
+      \* function works through the elements of one batch and answers with a list
+      [] f = "b_inc"  -> Lst([i \in 1 .. Len(Items(x)) |-> I(Num(Items(x)[i]) + 1)])                    \* Batch.map(inc)
+      [] f = "b_pair" -> Lst([i \in 1 .. Len(Items(x)) |-> T(<<Items(x)[i], I(Num(Items(x)[i]) + 1)>>)])   \* Batch.map(pair)
+      [] f = "b_even" -> Lst(SelectSeq(Items(x), LAMBDA e : Num(e) % 2 = 0))                            \* Batch.filter(even)
+      [] f = "b_pl1"  -> Lst([i \in 1 .. Len(Items(x)) |-> Items(Items(x)[i])[2]])                       \* Batch.pluck(1)
 
 ApplyStar(f, x) ==        \* starmap: func(*x)
     CASE f = "add2" -> I(Num(Items(x)[1]) + Num(Items(x)[2]))
       [] f = "tup"  -> T(Items(x))
       [] f = "snd"  -> Items(x)[Len(Items(x))]
+      \* map_partitions(func, a, b) over two streaming collections: zip of the two streams, then func(*pair)
+      [] f = "cat"  -> Lst(Items(Items(x)[1]) \o Items(Items(x)[2]))
 
 Pred(f, x) ==
     CASE f = "even" -> Num(x) % 2 = 0
@@ -90,6 +102,7 @@ Bin(f, s, x) ==
     CASE f = "add"   -> I(Num(s) + Num(x))
       [] f = "max"   -> IF Num(x) > Num(s) THEN x ELSE s
       [] f = "addrs" -> T(<<I(Num(s) + Num(x)), s>>)       \* returns (new state, result = old state)
+      [] f = "bsum"  -> I(Num(s) + SumItems(Items(x)))     \* Batch.sum(): accumulate_partitions(acc + sum(new), start=0)
       \* Stream.frequencies(): the state is a table value -> count (pairs sorted by value); every emission is a table of its own
       [] f = "freq"  -> LET ps == Items(s)
                         IN IF \E i \in 1 .. Len(ps) : Items(ps[i])[1] = x
